@@ -165,7 +165,8 @@ def search(ctx, escalate=False):
     net = pp.create_empty_network(fluid="water")
     for nm, st in net.std_types["pump"].items():
         for _ in range(reps):
-            v = rng.uniform(-0.02, 0.12, 6)
+            # random flows of either sign plus the boundary of the reverse-flow rule (exactly zero, signed zero, +-tiny)
+            v = np.concatenate((rng.uniform(-0.02, 0.12, 6), [0.0, -0.0, 1e-13, -1e-13]))
             n += 1
             try:
                 arr = np.asarray(st.get_pressure(v), float)
@@ -177,6 +178,12 @@ def search(ctx, escalate=False):
                 fail("C19:pump-negative-lift", "pump lift non-negative", pump=nm, lift=float(min(arr.min(), sc.min())))
             if (arr[v < 0] != 0).any():
                 fail("C19:pump-reverse-lift", "zero lift for reverse flow", pump=nm)
+            pw = np.arange(len(st.reg_par) - 1, -1, -1)
+            poly = np.array([max(0.0, float(np.sum(np.asarray(st.reg_par, float) * (z * 3600) ** pw))) if z >= 0 else 0.0 for z in v])
+            if not np.allclose(sc, poly, rtol=1e-10, atol=1e-12) or not np.allclose(arr, poly, rtol=1e-10, atol=1e-12):
+                k = int(np.flatnonzero(~np.isclose(sc, poly, rtol=1e-10, atol=1e-12) | ~np.isclose(arr, poly, rtol=1e-10, atol=1e-12))[0])
+                fail("C19:pump-vs-polynomial", "lift follows the regression polynomial for non-reverse flow", pump=nm,
+                     vdot=float(v[k]), scalar=float(sc[k]), array=float(arr[k]), polynomial=float(poly[k]))
             if not np.allclose(arr, sc, rtol=1e-12, atol=1e-12):
                 fail("C19:pump-scalar-vs-array", "same lift for scalar and array queries", pump=nm,
                      array=arr.tolist()[:3], scalar=sc.tolist()[:3])
